@@ -552,6 +552,32 @@ def parseURI (uri : Str) : ParseOut :=
             path := unquote sp.path
             args := dictOf (parseQsl sp.query) }
 
+/-! ## `connectionForURI(uri, **args)`: extra parameters -/
+
+/-- `quote_plus(s)` (`safe=''`) of a valid string: blanks become `+`, a literal `+` is escaped -/
+def quotePlusB (s : Str) : Str :=
+  (quoteBytes [32] (utf8 s)).map fun c => if c = 32 then 43 else c
+
+def quotePlus (s : Str) : Option Str := if validStr s then some (quotePlusB s) else none
+
+/-- `k=v` joined by `&` -/
+def joinParams : List (Str × Str) → Str
+  | [] => []
+  | [(k, v)] => k ++ 61 :: v
+  | (k, v) :: rest => k ++ 61 :: v ++ 38 :: joinParams rest
+
+/-- `urlencode(args)` for `str` names and values; `none` = UnicodeEncodeError -/
+def urlencode (ps : List (Str × Str)) : Option Str :=
+  if ps.all (fun kv => validStr kv.1 && validStr kv.2) then
+    some (joinParams (ps.map fun kv => (quotePlusB kv.1, quotePlusB kv.2)))
+  else none
+
+/-- the URI `connectionForURI(uri, **args)` goes on with:
+    `uri += ('?' if '?' not in uri else '&') + urlencode(args)` when there are args -/
+def withParams (uri : Str) (ps : List (Str × Str)) : Option Str :=
+  if ps.isEmpty then some uri
+  else (urlencode ps).map fun q => uri ++ (if uri.contains 63 then [38] else [63]) ++ q
+
 open Extracted in
 /-- file name `SQLiteConnection._connectionFromParams` opens; `none` = AssertionError -/
 def sqliteOpen (p : Parsed) : Option Str :=
